@@ -37,6 +37,7 @@ fn main() {
         Some("streamq") => m_cexec::run_streamq_cases(),
         Some("crun") => m_crun::run(),
         Some("crunw") => m_crun::run_wake(),
+        Some("crunstop") => m_crun::run_stop(),
         Some("cchan") => m_cchan::run(),
         Some("cchan0") => m_cchan::run0(),
         Some("timing") => m_timing::run(),
